@@ -4,6 +4,8 @@ func init() {
 	const mach = "internal/machine/vm/machine.go"
 	wdAllOld := "\t\t\tamountTaken := machine.Zero\n\t\t\tbalanceWithOverdraft := balance.Add(overdraft)\n\t\t\tif balanceWithOverdraft.Gt(machine.Zero) {\n\t\t\t\tamountTaken = balanceWithOverdraft\n\t\t\t\taccBalances[asset] = overdraft.Neg()\n\t\t\t}\n"
 	addMutants(
+		Mutant{Property: "C01", Name: "resolved-balance-is-not-the-store-balance", File: "internal/machine/vm/machine.go",
+			Old: "\t\t\tm.Balances[accountAddress][asset] = machine.NewMonetaryIntFromBigInt(balance)", New: "\t\t\tm.Balances[accountAddress][asset] = machine.NewMonetaryIntFromBigInt(balance).Add(machine.NewMonetaryInt(1))", Expect: "R01h:"},
 		Mutant{Property: "C01", Name: "withdrawAll-sets-floor-unconditionally", File: mach, Old: wdAllOld,
 			New:    "\t\t\tamountTaken := machine.Zero\n\t\t\tfloor := overdraft.Neg()\n\t\t\tif balance.Gt(floor) {\n\t\t\t\tamountTaken = balance.Sub(floor)\n\t\t\t}\n\t\t\taccBalances[asset] = floor\n",
 			Expect: "R01f:withdrawAll:debits-exactly"},
